@@ -895,8 +895,10 @@ Proof.
   cbn [phost_add]. cbv zeta. unfold ordered, mbind at 1 2.
   destruct (pop_hosts sa) as [[o|e|w] sb] eqn:Ep; try discriminate.
   unfold ret at 1. cbv beta iota. rewrite reorder_single.
-  destruct (produce_exchange corr (p_acks p) (p_ack_timeout p) _ [] sb) as [[cf0|e|w] sc] eqn:Ex; try discriminate.
-  unfold ret. intros H. inversion H; subst.
+  unfold mbind.
+  match goal with |- context [produce_exchange corr (p_acks p) (p_ack_timeout p) ?rq [] sb] => set (reqs := rq) end.
+  destruct (produce_exchange corr (p_acks p) (p_ack_timeout p) reqs [] sb) as [[cf0|e|w] sc] eqn:Ex; try discriminate.
+  unfold ret. intros H. inversion H; subst. subst reqs.
   destruct (produce_exchange_single _ _ _ _ _ _ _ _ Ha Ex) as [payload [c [rtps [Hs Hc]]]].
   exists host, payload, sb, c, rtps. split; assumption.
 Qed.
@@ -960,3 +962,107 @@ Example ex_send_other_topic :
                                  ++ (enc_i32 7 ++ enc_i16 0 ++ enc_i64 5)))
                 ex_client_md false))) = true.
 Proof. vm_compute. reflexivity. Qed.
+
+(* ====================================================================== *)
+(* group coordinator lookup                                                *)
+(* ====================================================================== *)
+Lemma group_lookup_panic req s w :
+  npb req -> fst (group_lookup_attempt req s) = Panic w ->
+  w = tag "available connection" /\ fst (get_conn_any s) = Ok None.
+Proof.
+  intros Hreq. unfold group_lookup_attempt, mbind at 1.
+  pose proof (mnp_get_conn_any s) as Hn. revert Hn.
+  destruct (get_conn_any s) as [[[h|]|e|w'] s1]; cbn [fst npb]; intros Hn; try discriminate; [|auto|contradiction].
+  - intros H. exfalso.
+    assert (Hm : mnp (let+ _ := send_request h req in get_response dec_coordinator_resp h)).
+    { apply mnp_bind; [apply mnp_send_request; exact Hreq|]. intros _. apply mnp_get_response.
+      intros b. apply no_panic_npb, C13_decode_coordinator. }
+    specialize (Hm s1). rewrite H in Hm. exact Hm.
+  - unfold mpanic. cbn [fst]. intros H. inversion H. auto.
+Qed.
+
+(* when does get_conn_any come back empty-handed *)
+Lemma get_conn_any_none s :
+  fst (get_conn_any s) = Ok None ->
+  conns (cl s) = [] \/ (idle_expired (cfg (cl s)) = true /\ conns (cl s) <> []).
+Proof.
+  unfold get_conn_any, mbind at 1. unfold get_client. cbv beta iota.
+  destruct (conns (cl s)) as [|first rest] eqn:Ec; [auto|]. intros H. right. split; [|discriminate].
+  destruct (idle_expired (cfg (cl s))) eqn:Ei; [reflexivity|]. exfalso. revert H.
+  unfold mbind. destruct (pop_any s) as [[pick|e|w] s1]; cbn [fst]; try discriminate.
+Qed.
+
+(* The requested statement ("only when the pool is empty") holds when the idle timeout is
+   not zero ... *)
+Theorem C13_group_lookup_outside_known : forall req s w,
+  npb req -> idle_expired (cfg (cl s)) = false ->
+  fst (group_lookup_attempt req s) = Panic w ->
+  w = tag "available connection" /\ conns (cl s) = [].
+Proof.
+  intros req s w Hreq Hidle H. destruct (group_lookup_panic req s w Hreq H) as [Hw Hn].
+  split; [exact Hw|]. destruct (get_conn_any_none s Hn) as [Hc|[Hi _]]; [exact Hc|congruence].
+Qed.
+
+(* ... in general there is a second way: every pooled connection has reached the idle
+   timeout (modelled: idle_timeout = 0) and re-connecting fails, so get_conn_any returns
+   None although the pool is not empty.  Not a broker *reply*, but a broker that refuses
+   connections at that moment. *)
+Definition lookup_no_connection (s : st) : Prop :=
+  conns (cl s) = [] \/ (idle_expired (cfg (cl s)) = true /\ conns (cl s) <> [] /\ fst (get_conn_any s) = Ok None).
+
+Theorem C13_group_lookup_outside_known_partial : forall req s w,
+  npb req -> fst (group_lookup_attempt req s) = Panic w ->
+  w = tag "available connection" /\ lookup_no_connection s.
+Proof.
+  intros req s w Hreq H. destruct (group_lookup_panic req s w Hreq H) as [Hw Hn].
+  split; [exact Hw|]. destruct (get_conn_any_none s Hn) as [Hc|[Hi Hc]]; [left; exact Hc|right; auto].
+Qed.
+
+Definition ex_idle0_client : client :=
+  let g := default_config [tag "h:1"] in
+  {| cfg := {| client_id := client_id g; hosts := hosts g; compression := compression g;
+               fetch_max_wait_time := fetch_max_wait_time g; fetch_min_bytes := fetch_min_bytes g;
+               fetch_max_bytes_per_partition := fetch_max_bytes_per_partition g;
+               fetch_crc_validation := fetch_crc_validation g; offset_storage := offset_storage g;
+               retry_backoff_time := retry_backoff_time g; retry_max_attempts := retry_max_attempts g;
+               idle_timeout := (0, 0) |};
+     cs := ex_cs; conns := [tag "h:1"] |}.
+
+Theorem C13_group_lookup_outside_known_refuted :
+  exists req s w, npb req /\ conns (cl s) <> [] /\ fst (group_lookup_attempt req s) = Panic w.
+Proof.
+  exists (enc_group_coordinator_req 1 [] (tag "g")), (ex_st [OConn false] ex_idle0_client false),
+         (tag "available connection").
+  split; [apply npb_enc_group_coordinator_req|]. split; [discriminate|]. vm_compute. reflexivity.
+Qed.
+(* the pool-is-empty case, and a garbage answer on a live connection *)
+Example ex_lookup_empty_pool :
+  fst (group_lookup_attempt (enc_group_coordinator_req 1 [] (tag "g")) (ex_st [] ex_client_md false))
+  = Panic (tag "available connection").
+Proof. vm_compute. reflexivity. Qed.
+Example ex_lookup_garbage :
+  fst (group_lookup_attempt (enc_group_coordinator_req 1 [] (tag "g"))
+         (ex_st [OWrote 1000; OData (enc_i32 3); OData [xff; xff; xff]]
+                {| cfg := default_config [tag "h:1"]; cs := ex_cs; conns := [tag "h:1"] |} false))
+  = Err (EIo IoUnexpectedEof).
+Proof. vm_compute. reflexivity. Qed.
+
+Print Assumptions C13_metadata_update_total.
+Print Assumptions C13_frame_size.
+Print Assumptions C13_frame_size_negative.
+Print Assumptions C13_poll_layer_outside_known.
+Print Assumptions C13_poll_layer_no_fuel.
+Print Assumptions C13_poll_layer_refuted.
+Print Assumptions C13_poll_layer_refuted_partition.
+Print Assumptions C13_poll_layer_refuted_overflow.
+Print Assumptions C13_consumer_init_outside_known.
+Print Assumptions C13_consumer_init_refuted.
+Print Assumptions C13_consumer_init_refuted_underflow.
+Print Assumptions C13_fallback_states_total.
+Print Assumptions C13_range_states_outside_known.
+Print Assumptions C13_consumer_init_states_total.
+Print Assumptions C13_producer_send_outside_known.
+Print Assumptions C13_producer_send_refuted.
+Print Assumptions C13_group_lookup_outside_known.
+Print Assumptions C13_group_lookup_outside_known_partial.
+Print Assumptions C13_group_lookup_outside_known_refuted.
